@@ -14,7 +14,7 @@ ID = "C12"
 LEVEL = "fault_enumeration"
 RULE = ("Complete single-fault sweep: for each of 12 scenarios (connect-with-auth, shell, stat, list, pull, push, abandoned stream, in several orders) x every index k of its transport-call "
         "sequence x every applicable fault kind in {read raises timeout, read raises ConnectionResetError, EOF from k on, short read then raise, short read then EOF, write raises BrokenPipeError, partial write then raise, "
-        "write raises timeout, connect refused} x recovery variant {close()+connect(), connect() only} x both APIs; Hypothesis-sampled fault pairs (second fault inside the recovery); and the same recovery oracle over real loopback TCP where the peer aborts the connection (RST) after a drawn number of host packets. "
+        "write raises timeout, connect refused} x recovery variant {close()+connect(), connect() only, close()+connect() with the broken session's late packets (OKAY/WRTE/CLSE for each of the last three streams the host had opened in it) delivered right behind the new CNXN, as on a USB-like pipe} x both APIs; Hypothesis-sampled fault pairs (second fault inside the recovery); and the same recovery oracle over real loopback TCP where the peer aborts the connection (RST) after a drawn number of host packets. "
         "Oracle: the faulted call raises or returns the model's value; then, with Lock rebound to a lock that fails instead of blocking when already held, close() completes, connect() to a fresh healthy "
         "simulator returns True and the whole scenario replayed gives exactly the model's results; Watchdog = non-termination. Non-trivial: fault strictly inside an operation (not its first call). "
         "Distinct = (scenario, k, kind, variant, api).")
@@ -126,7 +126,7 @@ def grid():
             for k, ck in enumerate(kinds):
                 for kind in R_KINDS + W_KINDS + C_KINDS:
                     if applicable(kind, ck):
-                        for variant in ("close+connect", "connect"):
+                        for variant in ("close+connect", "connect", "close+connect+stale"):
                             yield {"scn": name, "api": api, "k": k, "kind": kind, "variant": variant}
 
 
@@ -138,12 +138,13 @@ def check_case(c):
     j = max(i for i in range(len(marks) - 1) if marks[i] <= k)
     first_call_of_op = (k == marks[j])
     faulted_ops = ops[:j]            # scenario ops up to and including the faulted one (op 0 is the connect)
-    recovery = ([{"op": "close"}] if c["variant"] == "close+connect" else []) + [dict(conn, op="connect")] + [dict(o) for o in ops]
+    recovery = ([{"op": "close"}] if c["variant"].startswith("close+connect") else []) + [dict(conn, op="connect")] + [dict(o) for o in ops]
+    stale = c["variant"].endswith("+stale")     # late packets of the broken session (its streams' OKAY/WRTE/CLSE) arrive right behind the new CNXN
     faults = {str(k): kind}
     k2 = c.get("k2")
     scn = {"api": api, "device": dev, "connect": conn, "ops": [dict(o) for o in faulted_ops] + recovery,
            "transport": {"flavour": "raises", "faults": faults, "max_calls": 100000, "log_calls": False},
-           "fresh_sim_on_reconnect": True, "healthy_device": dict(dev, maxdata=HEALTHY_MAXDATA)}
+           "fresh_sim_on_reconnect": True, "healthy_device": dict(dev, maxdata=HEALTHY_MAXDATA), "stale_replay": stale}
     n_faulted = 1 + len(faulted_ops)
     marks2 = []
     lockf = CheckingAsyncLock if api == "async" else CheckingLock
@@ -195,7 +196,7 @@ def check_case(c):
             return Violation("stale-maxdata-after-reconnect", "%r: after reconnecting to a device with maxdata=%d the host sent a larger WRTE: %r" % (c, HEALTHY_MAXDATA, v_)), info
     # auxiliary: nothing of the broken session survives in the packet store
     store = getattr(getattr(out.device, "_io_manager", None), "_packet_store", None)
-    if store is not None and k2 is None and c.get("check_store", True):
+    if store is not None and k2 is None and c.get("check_store", True) and not stale:
         try:
             leftover = len(store)
         except Exception:  # noqa
